@@ -22,7 +22,7 @@ def pipeline_for(prog, rec, tier, rules, monitor=False, spawn=False, explanation
     return pa
 
 
-def combined(prog, rec, tier, rules, driver=(), hmac=(), pipe=False, monitor=False, spawn=False, explanation=''):
+def combined(prog, rec, tier, rules, driver=(), hmac=(), pipe=False, monitor=False, spawn=False, explanation='', hash=()):
     """Run the selected shared analyses, keep the obligations of `rules`."""
     from . import monitor as mon
     info = {}
@@ -45,6 +45,11 @@ def combined(prog, rec, tier, rules, driver=(), hmac=(), pipe=False, monitor=Fal
         hr = HmacRules(prog, rec)
         for part in hmac:
             getattr(hr, part)()
+    if hash:
+        from .hash_rules import HashRules
+        hs = HashRules(prog, rec)
+        for part in hash:
+            getattr(hs, part)()
     rec.obls = [o for o in rec.obls if o.rule in rules]
     rec.instances = {k: v for k, v in rec.instances.items() if any(k.startswith(r) for r in rules)}
     rec.extra['explanation'] = explanation
